@@ -159,6 +159,11 @@ def generate(rng, tier):
         # make sure translucent flat colours occur so that Src and Over differ
         t3 = t3[:6] + ["CS", "0", "CR", "0", "0", "#" + rng.choice(["80000080", "40404040", "00008080", G.rpremul(rng)])] + t3[6:]
         g["drawop"].append("PIXOP %s %d %d %s" % (kind, rng.choice(sizes[2:8]), rng.choice(sizes[2:8]), " ".join(t3)))
+        # the first Draw consumes the operator even when it goes to an empty rectangle (then the Renderer is re-targeted)
+        s6 = Script(rng, gradients=False)
+        t6 = s6.tokens()
+        w6, h6 = rng.choice(sizes[2:8]), rng.choice(sizes[2:8])
+        g.setdefault("drawop-retarget", []).append("PIXOP %s %d %d SR 0 0 0 0 %s SR 0 0 %d %d %s" % (kind, w6, h6, " ".join(t6), w6, h6, " ".join(t3)))
         # level of detail is decided by the rectangle's height, wherever the rectangle sits
         h4 = rng.choice(sizes[:9])
         s4 = Script(rng, lod_h=h4)
